@@ -189,6 +189,9 @@ for d in sorted(glob.glob(os.path.join(VERIF, "seeded", "*"))):
         first = open(notes).readline() if os.path.exists(notes) else ""
         m["property"] = first.replace("property:", "").strip()[:3]
         m["source"] = "independent sub-agent, third round (multi-function maintenance commit with one slip)"
+    elif name.startswith(("r5-", "r6-", "r8-", "r9-")):
+        m["property"] = name.split("-")[1]
+        m["source"] = "independent sub-agent, round %s (given the list of ideas used before for its property and told to avoid them)" % name[1]
     else:
         m["property"] = name.split("-")[0]
     if name in NEEDS:
